@@ -15,6 +15,7 @@ EXPLANATION = (
     "RemoteLink::new has no error exit after LinkBuilder::build registered the connection unless Event::Disconnect is sent first; "
     "(R-C16-handover) in RemoteLink::start every path from filling the buffer shared with the router (push_back through the LinkTx::buffer guard, Network::readv) to the end of the link passes LinkTx::notify; "
     "(R-C16-registry) in broker::remote nothing that can panic runs while the shared will-decider table is locked (region between each MutexGuard's definition and its drop), and the decider a task registers is removed or waited on on every path to the end of the task; "
+    "R-C16-fire also demands that broker::remote reports Event::Disconnect and Event::PublishWill with a blocking send (a discarded try_send loses the report when the router queue is full). "
     "NOT decided: ordering of PublishWill against Disconnect processing in the router channel; delay timing.")
 ASSUMPTIONS = ["rustc MIR construction is correct"]
 TECHNIQUE = "static analysis: who-may-write on the will table, provenance of the published will, must-pass / control-dependence rules in the connection task's async body (pre-lowering MIR)"
